@@ -651,13 +651,32 @@ def _const_assign(node):
 
 
 def enumerate_paths(cfg, start, stop, follow_exc=False, max_paths=4000,
-                    start_env=None, first_edges=None):
+                    start_env=None, first_edges=None, correlate=False):
     """All acyclic paths from ``start`` to a node satisfying ``stop(n)`` (or
     to an exit node).  Branches whose test is a bare local flag with a known
     constant value on the path are pruned (``didrepl = True; if didrepl:``).
-    ``first_edges``: restrict the edges taken out of ``start``."""
+    ``first_edges``: restrict the edges taken out of ``start``.
+    ``correlate``: two tests of the same bare local name with no binding of
+    it in between have the same outcome (``flag = f(); if flag: ..; if flag:``)
+    - contradictory paths are pruned."""
     res = []
     exits = (cfg.exit, cfg.raise_exit)
+    TESTED = '\0tested:'
+    expand = None
+    if isinstance(getattr(cfg, 'func', None), (ast.FunctionDef,
+                                               ast.AsyncFunctionDef)):
+        from .astutil import expand_fact_texts, single_defs
+        if single_defs(cfg.func):
+            _memo = {}
+
+            def expand(fs):
+                k = tuple(fs)
+                if k not in _memo:
+                    try:
+                        _memo[k] = set(expand_fact_texts(cfg.func, set(fs)))
+                    except AnalysisError:
+                        _memo[k] = set(fs)
+                return _memo[k]
 
     def feasible(edge, env):
         for (x, pol) in edge.facts:
@@ -676,8 +695,11 @@ def enumerate_paths(cfg, start, stop, follow_exc=False, max_paths=4000,
             env[ca[0]] = ca[1]
         else:
             bound, _ = stmt_effects(n)
-            if bound & set(env):
-                env = {k: v for k, v in env.items() if k not in bound}
+            if bound & set(env) or (correlate and any(
+                    TESTED + b in env for b in bound)):
+                env = {k: v for k, v in env.items()
+                       if k not in bound and not (
+                           k.startswith(TESTED) and k[len(TESTED):] in bound)}
         edges = n.succ
         if n is start and first_edges is not None:
             edges = first_edges
@@ -686,15 +708,35 @@ def enumerate_paths(cfg, start, stop, follow_exc=False, max_paths=4000,
                 continue
             if not feasible(e, env):
                 continue
+            env_e = env
+            if correlate:
+                bad = False
+                for (x, pol) in e.facts:
+                    if isinstance(x, ast.Name):
+                        k = TESTED + x.id
+                        if k in env_e and env_e[k] != pol:
+                            bad = True
+                            break
+                        if k not in env_e:
+                            env_e = dict(env_e)
+                            env_e[k] = pol
+                if bad:
+                    continue
             ef = [fact_key(x, p) for (x, p) in e.facts]
+            if ef and expand is not None:
+                # a test of a hoisted pure local yields the fact about the
+                # hoisted expression too
+                seen_ = set(ef)
+                for fk in sorted(expand(ef) - seen_):
+                    ef.append(fk)
             nf = facts + ef
             d = e.dst
             if d in exits or stop(d):
-                res.append(Path(nodes + [d], nf, d, env, steps + [ef]))
+                res.append(Path(nodes + [d], nf, d, env_e, steps + [ef]))
                 continue
             if d in onpath:
                 continue  # inner cycle: not followed twice
-            rec(d, nodes + [d], nf, env, onpath | {d}, steps + [ef])
+            rec(d, nodes + [d], nf, env_e, onpath | {d}, steps + [ef])
 
     rec(start, [start], [], dict(start_env or {}), {start}, [])
     return res
@@ -824,4 +866,12 @@ def facts_at(func, node):
     base = IN.get(n) if n is not None else None
     res = set(base or ())
     res.update(expr_context_facts(node))
+    # a test hoisted into a single-definition local (``leaf = x.is_leaf()``;
+    # ``if leaf:``) yields the fact about the hoisted expression as well
+    if res and isinstance(func, (ast.FunctionDef, ast.AsyncFunctionDef)):
+        from .astutil import expand_fact_texts
+        try:
+            res = set(expand_fact_texts(func, res))
+        except AnalysisError:
+            pass
     return res
